@@ -83,6 +83,10 @@ func (c *Connection) handleCallReq(frame *Frame) bool {
 	verifPoint("inbound.afterNewExchange", frame.Header.ID)
 	// Close may have been called between the time we checked the state and us creating the exchange.
 	if c.readState() != connectionActive {
+		// Reject the call like any other call that arrives on a closing connection,
+		// the caller must not be left waiting for a response. The error is sent
+		// before the exchange is removed since the removal may close the connection.
+		c.SendSystemError(frame.Header.ID, callReqSpan(frame), ErrChannelClosed)
 		mex.shutdown()
 		return true
 	}
